@@ -15,7 +15,17 @@ for f in sorted(glob.glob('/verif/harness/specs/*.json')):
             key=(h['pkg'],h['func'],json.dumps(h.get(tier,{}),sort_keys=True))
             seen.setdefault(key,pid)
 env=dict(os.environ,SYMGO_SCRATCH_OUT='/tmp/sweep_out')
+# entries already seen to pass (lines of earlier sweep logs named in $SWEEP_SKIP_LOGS) are skipped
+done=set()
+for lf in os.environ.get('SWEEP_SKIP_LOGS','').split(':'):
+    if lf and os.path.exists(lf):
+        for l in open(lf):
+            if ' exit=0 ' in l and '{' in l:
+                fn=l.split()[1]; pj=l[l.index('{'):l.rindex('}')+1]
+                try: done.add((fn,json.dumps(json.loads(pj),sort_keys=True)))
+                except Exception: pass
 for (pkg,fn,params),pid in seen.items():
+    if (fn,params) in done: continue
     t=time.time()
     r=subprocess.run(['/verif/check',pid,'--tier',tier,'-harness',fn,'-budget',budget,'-workers',workers],capture_output=True,text=True,env=env)
     res=[l for l in r.stdout.splitlines() if l.startswith('RESULT')]
